@@ -54,6 +54,11 @@ func behaviourClass(steps []step, verdictKey string) string {
 			feat["other"] = true
 		case "otherdelete":
 			feat["otherdelete"] = true
+		case "push":
+			if vf, _ := s["vfail"].(bool); vf {
+				feat["vfail"] = true
+			}
+			nver++
 		case "merge":
 			feat["merge"] = true
 			merged[s.str("o")] = true
@@ -327,6 +332,11 @@ func replayPush(c *core.Ctx, lfsBin string, b *behaviour, idx int) (viol *core.V
 	if b.hash%3 == 0 {
 		transport = "file"
 	}
+	for _, s := range b.steps {
+		if vf, _ := s["vfail"].(bool); vf {
+			transport = "http" // a server that stages uploads until they are verified is an HTTP server
+		}
+	}
 	w, err := NewWorldOpts(root, filepath.Dir(lfsBin), c.Seed, WorldOpts{FileRemote: transport == "file"})
 	if err != nil {
 		return nil, err
@@ -360,8 +370,17 @@ func replayPush(c *core.Ctx, lfsBin string, b *behaviour, idx int) (viol *core.V
 		case "lfs-push-all":
 			args = []string{"-c", fmt.Sprintf("lfs.allowincompletepush=%v", s["allow"] == true), "lfs", "push", "--all", "origin"}
 		}
+		vfail, _ := s["vfail"].(bool)
+		if vfail && w.Srv != nil {
+			w.logf("(the server stages uploads until verified; every verify call fails)")
+			w.Srv.Staging, w.Srv.FailVerify = true, true
+		}
 		w.logf("git %s", strings.Join(args, " "))
 		r := w.Env.RunIn(w.Clone, nil, nil, 120*time.Second, "git", args...)
+		if vfail && w.Srv != nil {
+			w.Srv.Staging, w.Srv.FailVerify = false, false
+			w.Srv.DropStaged()
+		}
 		if r.Code == -2 {
 			return &core.Violation{Assertion: "push-terminates", Fields: map[string]string{"mode": s.str("mode")},
 				Detail: map[string]interface{}{"behaviour": json.RawMessage(b.raw), "step": i, "commands": w.Log}}, nil
@@ -515,7 +534,7 @@ func init() {
 		}
 		c.Level = "model_checking"
 		lfs := c.BuildLFS()
-		cfg, budget := "Push_q.cfg", 260
+		cfg, budget := "Push_q.cfg", 400
 		if !c.Quick() {
 			cfg, budget = "Push_t.cfg", 2500
 		}
